@@ -18,6 +18,7 @@ type entry struct {
 
 var registry = map[string]entry{
 	"C08": {"model_checking", checks.C08},
+	"C09": {"model_checking", checks.C09},
 }
 
 func main() {
